@@ -33,6 +33,16 @@ Definition create_fragment (track : N) : frag :=
 Definition create_multi (tracks : list N) : frag :=
   mkFrag (map (fun t => mkTraf (create_tfhd t) (mkTfdt 0 0) [] 0) tracks) (mkMdat [] [] 0 false) 0 0 0 0.
 
+(* extra boxes (emsg/prft before moof; free/uuid/unknown in moof, in trafs, after mdat) added after creation:
+   only their sizes matter. exs = per traf, by position *)
+Fixpoint set_extras (ts : list traf) (exs : list N) : list traf :=
+  match ts, exs with
+  | t :: ts', e :: exs' => mkTraf (tf_hd t) (tf_dt t) (tf_truns t) e :: set_extras ts' exs'
+  | _, _ => ts
+  end.
+Definition with_extras (fr : frag) (pre mx post : N) (exs : list N) : frag :=
+  mkFrag (set_extras (fr_trafs fr) exs) (fr_mdat fr) (fr_next fr) pre mx post.
+
 (* ------------------------------------------------------------------ operations *)
 Inductive op :=
 | OFull (s : sample) (dts : N) (data : list N)                 (* AddFullSample *)
